@@ -290,10 +290,19 @@ def calcVersion (level priority : Int) (segments : List Segment) : Out (Option I
     if !over ∧ length ≤ capacity then return some version
   return none
 
+/-- the repaired source asks `calcVersion` for the smallest symbol of the requested priority when the payload is
+empty; the pinned source returned R7x43 whatever the priority (R11x27 is narrower and smaller in area) -/
+def NEW_EMPTY_USES_PRIORITY : Bool := true
+
 /-- Go: `New(data, opts...)` reduced to level, priority and the kanji switch -/
 def new (level priority : Int) (kanji : Bool) (data : List Nat) : Out QRCode := do
   if !levelIsValid level then Out.err (α := Unit) "qrcode: invalid level"
-  if data.isEmpty then return { version := 0, level, mask := 0, segments := [] }
+  if data.isEmpty then
+    if NEW_EMPTY_USES_PRIORITY then
+      match (← calcVersion level priority []) with
+      | none => Out.err (α := Unit) "qrcode: data too large"
+      | some version => return { version, level, mask := 0, segments := [] }
+    else return { version := 0, level, mask := 0, segments := [] }
   let segments ← (if kanji then New.newKanjiSegs [0, modeNumeric, modeAlphanumeric, modeBytes, modeKanji] data.toArray
     else pure (New.newQRSegs ((3 + 9) * 6) ((3 + 8) * 6) ((3 + 8) * 6) [0, modeNumeric, modeAlphanumeric, modeBytes] data.toArray))
   match (← calcVersion level priority segments) with
